@@ -14,4 +14,7 @@ Definition wf_case (c : case) : bool :=
   | L125 hi floor _ => in_u64 hi && (1 <=? floor) && in_u64 floor
   | IsCanon v _ => is_zat v
   | Stored cross buffer _ => forallb is_zat cross && is_zat buffer
+  | Engine notes cap buffer fee o _ =>
+      forallb is_zat notes && is_zat (sumZ notes) && is_zat buffer && is_zat fee && (1 <=? cap) && in_u64 cap
+      && match o with Ok (_, ntx) => in_u64 ntx | _ => true end
   end.
